@@ -161,7 +161,9 @@ func rulesC06(r *Run) {
 	gateRouting(r, "R4", smKey("BlockPreChecks"), smKey("runPreChecks"), []string{"BlockStartContChecks"}, []string{"BlockDeferredChecks"})
 	groupResultReturned(r, "R4", "runPreChecks", 2)
 	ruleFailBranchStatus(r, "R4", smKey("BlockPreChecks"), smKey("runPreChecks"), "workflow.Block")
-	r.Expect("R4", 8)
+	ruleJoinJ1(r, "R4", smKey("runPreChecks"), smKey("runBypasses")) // a gate that returns before joining its checks drops their verdict
+	ruleSkipRecoveredChecks(r, "R4")
+	r.Expect("R4", 11)
 }
 
 // ruleRunBypasses: runBypasses returns true only when Wait's error is nil, and the
@@ -385,7 +387,8 @@ func rulesC07(r *Run) {
 	ruleGroupState(r, "R4", "PlanDeferredChecks", "workflow.Plan", "DeferredChecks", "")
 	ruleGroupState(r, "R4", "BlockPostChecks", "workflow.Block", "PostChecks", "workflow.Block")
 	ruleGroupState(r, "R4", "PlanPostChecks", "workflow.Plan", "PostChecks", "")
-	r.Expect("R4", 13)
+	ruleJoinJ1(r, "R4", smKey("ExecuteSequences")) // deferred checks come after everything else in the scope: every started sequence has finished
+	r.Expect("R4", 14)
 
 	r.Kind("R5", "K1")
 	ruleContJoin(r, "R5", m)
